@@ -1,5 +1,6 @@
 """Which harness modules decide which property."""
 PROPERTIES = {
+    "C11": ["harness.C11_visitor"],
     "C01": ["harness.C01_total"],
     "C08": ["harness.C08_roundtrip"],
     "C09": ["harness.C09_ignored"],
